@@ -216,20 +216,31 @@ def _candidates(it, out, cur, compress):
             yield u
     elif k == 'li':
         u2 = _units(out, cur, 2)
-        if u2 and u2[1][0][3] == 'lui':
-            yield u2
         u1 = _units(out, cur, 1)
+        two = bool(u2) and u2[1][0][3] == 'lui'
+        # the natural reading first: lui + an instruction that updates the same register is one li; a lone lui (the documented single-instruction form for
+        # values with zero low bits) otherwise - the other reading stays available to the backtracking search
+        paired = two and u2[1][1][2] != 'bad' and u2[1][1][4].get('rd') == u2[1][0][4].get('rd') and u2[1][1][4].get('rs1', u2[1][1][4].get('rs2')) in (u2[1][0][4].get('rd'), 0)
+        if two and paired:
+            yield u2
         if u1:
             yield u1
+        if two and not paired:
+            yield u2
     elif k == 'pseudo':
         # a pseudo-instruction of unspecified expansion: one unit, or two when the first is lui / auipc
         u1 = _units(out, cur, 1)
+        u2 = None
         if u1 and u1[1][0][3] in ('lui', 'auipc') and it['name'] in ('li', 'call', 'tail'):
             u2 = _units(out, cur, 2)
-            if u2:
-                yield u2
+        paired = bool(u2) and u2[1][1][2] != 'bad' and (u1[1][0][3] == 'auipc' or (u2[1][1][4].get('rd') == u2[1][0][4].get('rd')
+                                                                                    and u2[1][1][4].get('rs1', u2[1][1][4].get('rs2')) in (u2[1][0][4].get('rd'), 0)))
+        if u2 and paired:
+            yield u2
         if u1:
             yield u1
+        if u2 and not paired:
+            yield u2
     elif k in ('call', 'tail'):
         u1 = _units(out, cur, 1)
         if u1 and u1[1][0][3] == 'auipc':
